@@ -202,7 +202,7 @@ def train_multi_agent_off_policy(
             dynamic_ncols=True,
         )
 
-    agent_ids = deepcopy(env.agents)
+    agent_ids = deepcopy(pop[0].agent_ids)
     pop_actor_loss = [{agent_id: [] for agent_id in agent_ids} for _ in pop]
     pop_critic_loss = [{agent_id: [] for agent_id in agent_ids} for _ in pop]
     pop_fitnesses = []
